@@ -1245,13 +1245,23 @@ def dispatch(ctx, world):
             r = ev.apply(clo3, list(pre3) + [an, T("star", x=star_args)], dict(prekw3), [])
         r = unseq(expand(ev, r, KEEP)) if r is not None else None
         if kind in ("dict", "maker"):
-            if is_call_to(r, "autograd.core.sum_outgrads") and len(r.args) == 1 and r.args[0].op == "comp":
-                c = r.args[0]
-                z = c.src
-                zok = is_call_to(z, "builtins.zip") and len(z.args) == 2 and z.args[0] is an and z.args[1] is gs and not c.conds
-                el = strip_seq(c.elt)
-                e_an = lambda t: t.op == "sub" and t.obj.op == "iterelem" and t.idx.op == "const" and t.idx.value == 0
-                e_g = lambda t: t.op == "sub" and t.obj.op == "iterelem" and t.idx.op == "const" and t.idx.value == 1
+            # the sum, by add_outgrads from None, of one term per (argnum, g) of zip(argnums, gs): written with
+            # sum_outgrads(<generator>), functools.reduce, or an accumulation loop (fold normal form)
+            from ..tutil import as_fold, fuse_source
+
+            z = el = None
+            if is_call_to(r, "autograd.core.sum_outgrads") and len(r.args) == 1 and not r.kw:
+                z, el = fuse_source(r.args[0])
+            elif r is not None and r.op == "sub" and r.idx.op == "const" and r.idx.value == 0 and type(r.idx.value) is int:
+                fd = as_fold(ev, r.obj)
+                if fd is not None and fd[0].op == "ref" and fd[0].ref.qual == "autograd.core.add_outgrads" and fd[1] is not None and fd[1].op == "const" and fd[1].value is None:
+                    z, el = fd[2], fd[3]
+            if z is not None:
+                zok = is_call_to(z, "builtins.zip") and len(z.args) == 2 and not z.kw and z.args[0] is an and z.args[1] is gs
+                el = strip_seq(el)
+                _e_src = lambda t: t.op == "iterelem" and t.src is z
+                e_an = lambda t: t.op == "sub" and _e_src(t.obj) and t.idx.op == "const" and t.idx.value == 0
+                e_g = lambda t: t.op == "sub" and _e_src(t.obj) and t.idx.op == "const" and t.idx.value == 1
                 if kind == "dict":
                     jd = _rule_dict(osc3)
                     ok = zok and el.op == "call" and el.fn.op == "sub" and el.fn.obj is jd and e_an(el.fn.idx) and len(el.args) == 3 and e_g(el.args[0]) and el.args[1] is a_ and el.args[2].op == "star" and el.args[2].x is ar and len(el.dstar) == 1 and el.dstar[0] is kw_
@@ -1262,10 +1272,10 @@ def dispatch(ctx, world):
             vm = osy3["#1"]
             if r.op == "closure":
                 g2 = T("sym", name="g", role="g")
-                res = strip_seq(ev.apply(r, [g2], {}, []))
-                if res.op == "comp":
+                res = strip_seq(unseq(expand(ev, ev.apply(r, [g2], {}, []), KEEP)))
+                if res.op == "comp" and not res.conds:
                     el = strip_seq(res.elt)
-                    if el.op == "call" and len(el.args) == 1 and el.args[0] is g2 and el.fn.op == "iterelem":
+                    if el.op == "call" and len(el.args) == 1 and el.args[0] is g2 and el.fn.op == "iterelem" and el.fn.src is res.src:
                         src = el.fn.src
                         if src.op == "comp" and src.src is an and src.get("kind") == "ListComp":
                             mk = strip_seq(src.elt)
